@@ -26,6 +26,33 @@ pub struct WriteReadBack;
 const STRINGS: &[&str] = &["plain", "with,comma", "with \"quote\"", "tab\there", "ünï©ødé ✓", " lead", "trail ", "a=b", "x/y", "100%", "semi;colon", "pipe|", "'single'"];
 const PART_VALUES: &[&str] = &["p", "with space", "a/b", "k=v", "50%", "ünï", "x+y", "q?m", "c:d", "e&f", "h#i"];
 
+/// C20's storage-write slice: the same statements, but one write-side request of the object store
+/// (a PUT, a multipart part, or the completion of a multipart upload) fails. The statement must
+/// fail; it must never report a row count as if everything had been stored.
+pub struct WriteFaults;
+
+impl Scenario for WriteFaults {
+    fn name(&self) -> &'static str {
+        "c20-sink"
+    }
+    fn generate(&self, rng: &mut Rng, tier: Tier) -> Value {
+        let mut case = WriteReadBack.generate(rng, tier);
+        // at least one non-empty batch, so that something is uploaded
+        if case["rows"].as_array().is_some_and(|p| p.iter().all(|b| b.as_array().is_some_and(|b| b.iter().all(|r| r.as_array().is_some_and(|r| r.is_empty()))))) {
+            case["rows"] = json!([[[[1, "plain", "p", 0], [2, Value::Null, "k=v", 1]]]]);
+        }
+        let kind = *rng.pick(&["put", "part", "part", "complete"]);
+        if kind != "put" {
+            case["writer_buffer"] = json!(*rng.pick(&[16u64, 64, 300]));
+        }
+        case["store"]["fail_write"] = json!({"kind": kind, "nth": if kind == "part" { rng.below(12) } else { rng.below(4) }});
+        case
+    }
+    fn run(&self, case: Value) -> RunFuture {
+        Box::pin(async move { run(case, true).await })
+    }
+}
+
 impl Scenario for WriteReadBack {
     fn name(&self) -> &'static str {
         "c25-write-readback"
@@ -67,6 +94,8 @@ impl Scenario for WriteReadBack {
             "soft_max_rows": *rng.pick(&[1u64, 3, 50_000_000]),
             "min_parallel_files": *rng.pick(&[1u64, 1, 2, 4]),
             "single_file": rng.chance(1, 4),
+            // small object-store writer buffers turn every upload into a multipart upload of many parts
+            "writer_buffer": *rng.pick(&[10_485_760u64, 16, 64, 300, 2000]),
             "store": {
                 "chunk": *rng.pick(&[0u64, 0, 7, 100]),
                 "pending_every": *rng.pick(&[0u64, 0, 2]),
@@ -78,12 +107,15 @@ impl Scenario for WriteReadBack {
         })
     }
     fn run(&self, case: Value) -> RunFuture {
-        Box::pin(async move { run(case).await })
+        Box::pin(async move { run(case, false).await })
     }
 }
 
-async fn run(case: Value) -> Outcome {
+async fn run(case: Value, write_faults: bool) -> Outcome {
     let Some(spec) = StoreSpec::parse(&case["store"]) else { return Outcome::Invalid };
+    if spec.fail_write.is_some() != write_faults {
+        return Outcome::Invalid;
+    }
     let Some(env) = EnvSpec::parse(&case["env"]) else { return Outcome::Invalid };
     let format = case["format"].as_str().unwrap_or("parquet").to_string();
     if !["parquet", "csv", "json", "arrow"].contains(&format.as_str()) {
@@ -150,6 +182,7 @@ async fn run(case: Value) -> Outcome {
         let _ = o.set("datafusion.execution.soft_max_rows_per_output_file", &case["soft_max_rows"].as_u64().unwrap_or(50_000_000).max(1).to_string());
         // the data is written with Utf8 strings: declare the read-back schema with the same type
         let _ = o.set("datafusion.sql_parser.map_string_types_to_utf8view", "false");
+        let _ = o.set("datafusion.execution.objectstore_writer_buffer_size", &case["writer_buffer"].as_u64().unwrap_or(10_485_760).clamp(1, 1 << 30).to_string());
         let _ = o.set("datafusion.execution.minimum_parallel_output_files", &case["min_parallel_files"].as_u64().unwrap_or(1).clamp(1, 8).to_string());
     }
     let ctx = SessionContext::new_with_config_rt(cfg, cx.runtime.clone());
@@ -199,6 +232,7 @@ async fn run(case: Value) -> Outcome {
         }
         let ex = sqlsim::execute_sql(&ctx, &format!("INSERT INTO sink SELECT {select_list} FROM src"), Consume::Stream, None).await;
         match ex.result {
+            Err(e) if write_fault_fired(&store) => return after_failed_write(ctx, cx, &e).await,
             Err(e) => return violation("unexpected-error", format!("INSERT failed: {}", sqlsim::error_text(&e))),
             Ok(rows) => reported = rows.first().and_then(|r| r.first().cloned().flatten()).and_then(|x| x.parse().ok()),
         }
@@ -206,11 +240,22 @@ async fn run(case: Value) -> Outcome {
         let sql = format!("COPY (SELECT {select_list} FROM src) TO '{location}' STORED AS {stored}{part_clause}{csv_opts}");
         let ex = sqlsim::execute_sql(&ctx, &sql, Consume::Stream, None).await;
         match ex.result {
+            Err(e) if write_fault_fired(&store) => return after_failed_write(ctx, cx, &e).await,
             Err(e) => return violation("unexpected-error", format!("{sql} failed: {}", sqlsim::error_text(&e))),
             Ok(rows) => reported = rows.first().and_then(|r| r.first().cloned().flatten()).and_then(|x| x.parse().ok()),
         }
     }
     let _ = table_cols;
+    if write_fault_fired(&store) {
+        let (k, n) = store.spec.fail_write.clone().unwrap_or_default();
+        return violation(
+            "write-error-swallowed",
+            format!("the object store failed {k} request #{n} of a {format} write (via {}), yet the statement succeeded and reported {reported:?} rows", if via_insert { "INSERT" } else { "COPY" }),
+        );
+    }
+    if write_faults {
+        sim::probe("probe.fault_not_reached");
+    }
     if reported != Some(expected.len() as u64) {
         return violation("wrong-count", format!("the statement reported {reported:?} rows, {} were written", expected.len()));
     }
@@ -265,6 +310,27 @@ async fn run(case: Value) -> Outcome {
     Outcome::Pass
 }
 
+fn write_fault_fired(store: &SimObjectStore) -> bool {
+    store.stats.write_errors.load(std::sync::atomic::Ordering::Relaxed) > 0
+}
+
+/// The injected storage failure surfaced as the statement's error: what remains to be checked is
+/// that everything the statement started is gone afterwards.
+async fn after_failed_write(ctx: SessionContext, cx: crate::envutil::Ctx, e: &datafusion_common::DataFusionError) -> Outcome {
+    let text = sqlsim::error_text(e);
+    if text.contains("simulated") {
+        sim::probe("probe.error_surfaced");
+    } else {
+        sim::probe("probe.error_surfaced_as_other_error");
+    }
+    drop(ctx);
+    tokio::time::sleep(std::time::Duration::from_secs(600)).await;
+    if let Some(v) = cx.quiescence_violation_stats(&[]) {
+        return v;
+    }
+    Outcome::Pass
+}
+
 fn col_def(c: &str) -> String {
     match c {
         "id" => "id BIGINT NOT NULL".to_string(),
@@ -281,7 +347,7 @@ pub fn check() -> Check {
         scenarios: vec![Box::new(WriteReadBack)],
         cases_quick: 6_000,
         cases_thorough: 150_000,
-        rule: "runs: a generated table (1-3 partitions, 0-3 batches, 0-6 rows; strings with separators, quotes, tabs, unicode, leading/trailing blanks, line breaks (not for CSV), NULLs; partition values containing space / = % + ? : & # and non-ASCII) written with COPY ... TO or INSERT INTO a listing table as Parquet, CSV, NDJSON or Arrow, unpartitioned (single file or directory) or hive-partitioned by one or two columns, with soft_max_rows_per_output_file 1/3/unlimited, minimum_parallel_output_files 1-4 and 1-4 target partitions, against the simulated object store (request latency 0/3/20 ms, multipart parts with individual latencies so that they complete out of order, chunked/Pending reads) under a seeded task schedule; the reported count must equal the rows written and reading the location back with the written schema must give exactly the written multiset. distinct = distinct traces",
+        rule: "runs: a generated table (1-3 partitions, 0-3 batches, 0-6 rows; strings with separators, quotes, tabs, unicode, leading/trailing blanks, line breaks (not for CSV), NULLs; partition values containing space / = % + ? : & # and non-ASCII) written with COPY ... TO or INSERT INTO a listing table as Parquet, CSV, NDJSON or Arrow, unpartitioned (single file or directory) or hive-partitioned by one or two columns, with soft_max_rows_per_output_file 1/3/unlimited, minimum_parallel_output_files 1-4, object-store writer buffers of 16 B - 10 MiB (small ones force multipart uploads of many parts) and 1-4 target partitions, against the simulated object store (request latency 0/3/20 ms, multipart parts with individual latencies so that they complete out of order, chunked/Pending reads) under a seeded task schedule; the reported count must equal the rows written and reading the location back with the written schema must give exactly the written multiset. distinct = distinct traces",
         assumptions: vec!["samples the format/option matrix; the claim is about completion, assembly and path encoding under schedules and storage latency", "CSV: NULL and the empty string are identified; no line breaks inside CSV values", "empty and NULL partition values are not generated"],
         components: json!({
             "real": ["datasource/src/write (demux, orchestration)", "FileSinkConfig / DataSinkExec", "parquet, csv, json, arrow sinks and readers", "ListingTable + hive partition path encoding/decoding", "object_store BufWriter / multipart"],
